@@ -1,3 +1,492 @@
-/- C01 — property theorems only (helper lemmas live in `Rooc/Proofs`). -/
+/-
+C01 — Linearization preserves the feasible set.  PROPERTY THEOREMS ONLY (helper lemmas live in
+`Rooc/Proofs/Lin*.lean`).  `K` is any linearly ordered field with a floor (in particular ℚ and ℝ);
+models carry literals in `Ext K`; `Lin.linearizeWith` is the executable port of `Linearizer::linearize`
+that `./check C01` diffs bit-exactly against the Rust.
+
+FULL TARGET (stated here; only the parts that are PROVED appear below as declarations):
+
+  theorem c01 (m : Model (Ext K)) (b : BoundsMap (Ext K)) (d : List (DomVar (Ext K))) (lm : LinModel (Ext K)) :
+      linearizeWith m b d = .ok lm →
+      BoundsSound m b d →            -- C07's enclosure: every source-feasible ρ lies in the box `b`; `d` has the
+                                     -- names/usage marks of `m.domain` and every source-feasible ρ satisfies it
+      BooleanBoundsUntouched m b →   -- every Boolean variable has the range [0,1] in `b` (guaranteed by the bounds
+                                     -- analysis; without it the statement fails: `c01_counterexample`, planned)
+      FiniteLits m → WellScoped m → Defined m →
+                                     -- literals finite; every variable that occurs is declared with a usage mark;
+                                     -- every constraint side is defined (no division by a zero literal that a
+                                     -- rewrite `0 * _` erases — C10's known finding)
+      ∀ ρ, srcFeasible m ρ = true ↔
+           ∃ ρ', (∀ v ∈ usedDeclared m, ρ' v = ρ v) ∧ linFeasible lm ρ' = true
+
+Proof architecture (DESIGN.md §6 C01): Stage A gadget lemmas (this file, complete); Stage B affine
+fragment and the end-to-end theorem for purely affine models; Stage C abs/min/max
+under the requirement-indexed specification; Stage D logic values and assertions; Stage E the
+work-list loop and final assembly.  `tools/props/C01.json` (`level_note`) says which stages are proved.
+-/
+import Rooc.Proofs.LinGadgets
+import Rooc.Proofs.LinC10
+import Rooc.Proofs.LinExamples
+import Rooc.Proofs.LinMain
+import Rooc.Proofs.LinCounter
 namespace Rooc.Props.C01
+open Rooc Rooc.Lin
+open Rooc.Lin.Gadget (B01 DomMax DomMin)
+open Rooc.Sem Rooc.LinP
+
+variable {K : Type} [Field K] [LinearOrder K] [IsStrictOrderedRing K]
+
+/-! ## Stage A — gadget lemmas
+
+Every local rewrite of the linearizer as a statement about plain elements of an ordered field.
+`B01 x` means `x = 0 ∨ x = 1`. -/
+
+/-! ### abs -/
+
+theorem abs_of_lower_nonneg {l e : K} (hl : 0 ≤ l) (he : l ≤ e) : |e| = e :=
+  Gadget.abs_of_lower_nonneg (l := l) (e := e) hl he
+
+theorem abs_of_upper_nonpos {u e : K} (hu : u ≤ 0) (he : e ≤ u) : |e| = -e :=
+  Gadget.abs_of_upper_nonpos (u := u) (e := e) hu he
+
+theorem abs_one_sided (z e : K) : (z ≥ e ∧ z ≥ -e) ↔ z ≥ |e| :=
+  Gadget.abs_one_sided z e
+
+theorem abs_exact_sound {l u e z p : K}
+    (hp : B01 p) (h1 : z ≥ e) (h2 : z ≥ -e)
+    (h3 : z ≤ e - (2 * l) * (1 - p)) (h4 : z ≤ -e + (2 * u) * p) : z = |e| :=
+  Gadget.abs_exact_sound (l := l) (u := u) (e := e) (z := z) (p := p) hp h1 h2 h3 h4
+
+theorem abs_exact_complete {l u e : K} (he1 : l ≤ e) (he2 : e ≤ u) :
+    ∃ p : K, B01 p ∧ |e| ≥ e ∧ |e| ≥ -e ∧ |e| ≤ e - (2 * l) * (1 - p) ∧ |e| ≤ -e + (2 * u) * p :=
+  Gadget.abs_exact_complete (l := l) (u := u) (e := e) he1 he2
+
+theorem abs_exact_iff {l u e z : K} (he1 : l ≤ e) (he2 : e ≤ u) :
+    (∃ p : K, B01 p ∧ z ≥ e ∧ z ≥ -e ∧ z ≤ e - (2 * l) * (1 - p) ∧ z ≤ -e + (2 * u) * p) ↔ z = |e| :=
+  Gadget.abs_exact_iff (l := l) (u := u) (e := e) (z := z) he1 he2
+
+theorem abs_in_aux_domain {l u e : K} (he1 : l ≤ e) (he2 : e ≤ u) : 0 ≤ |e| ∧ |e| ≤ max (-l) u :=
+  Gadget.abs_in_aux_domain (l := l) (u := u) (e := e) he1 he2
+
+/-! ### folds of `max` / `min` (the semantics of `max{…}` / `min{…}` is `xs.foldl max x`) -/
+
+theorem foldl_max_le_iff (z x : K) (xs : List K) :
+    xs.foldl max x ≤ z ↔ x ≤ z ∧ ∀ y ∈ xs, y ≤ z :=
+  Gadget.foldl_max_le_iff z x xs
+
+theorem le_foldl_min_iff (z x : K) (xs : List K) :
+    z ≤ xs.foldl min x ↔ z ≤ x ∧ ∀ y ∈ xs, z ≤ y :=
+  Gadget.le_foldl_min_iff z x xs
+
+theorem foldl_max_mem (x : K) (xs : List K) : xs.foldl max x ∈ x :: xs :=
+  Gadget.foldl_max_mem x xs
+
+theorem foldl_min_mem (x : K) (xs : List K) : xs.foldl min x ∈ x :: xs :=
+  Gadget.foldl_min_mem x xs
+
+theorem le_foldl_max (x : K) (xs : List K) : ∀ y ∈ x :: xs, y ≤ xs.foldl max x :=
+  Gadget.le_foldl_max x xs
+
+theorem foldl_min_le (x : K) (xs : List K) : ∀ y ∈ x :: xs, xs.foldl min x ≤ y :=
+  Gadget.foldl_min_le x xs
+
+theorem foldl_max_eq_iff (m x : K) (xs : List K) :
+    xs.foldl max x = m ↔ m ∈ x :: xs ∧ ∀ y ∈ x :: xs, y ≤ m :=
+  Gadget.foldl_max_eq_iff m x xs
+
+theorem foldl_min_eq_iff (m x : K) (xs : List K) :
+    xs.foldl min x = m ↔ m ∈ x :: xs ∧ ∀ y ∈ x :: xs, m ≤ y :=
+  Gadget.foldl_min_eq_iff m x xs
+
+theorem max_one_sided (z x : K) (xs : List K) : (∀ y ∈ x :: xs, z ≥ y) ↔ z ≥ xs.foldl max x :=
+  Gadget.max_one_sided z x xs
+
+theorem min_one_sided (z x : K) (xs : List K) : (∀ y ∈ x :: xs, z ≤ y) ↔ z ≤ xs.foldl min x :=
+  Gadget.min_one_sided z x xs
+
+/-! ### selector rows for exact max / min
+
+Operands are triples `(e, b, s)`: value, the bound used in the big-M constant (`l` for max, `u` for
+min), selector. -/
+
+theorem max_selector_sound {U z : K} (ops : List (K × K × K))
+    (hsel : ∀ t ∈ ops, B01 t.2.2) (hsum : (ops.map (·.2.2)).sum = 1)
+    (hge : ∀ t ∈ ops, z ≥ t.1) (hle : ∀ t ∈ ops, z ≤ t.1 + (U - t.2.1) * (1 - t.2.2)) :
+    z ∈ ops.map (·.1) ∧ ∀ y ∈ ops.map (·.1), y ≤ z :=
+  Gadget.max_selector_sound (U := U) (z := z) ops hsel hsum hge hle
+
+theorem min_selector_sound {L z : K} (ops : List (K × K × K))
+    (hsel : ∀ t ∈ ops, B01 t.2.2) (hsum : (ops.map (·.2.2)).sum = 1)
+    (hle : ∀ t ∈ ops, z ≤ t.1) (hge : ∀ t ∈ ops, z ≥ t.1 - (t.2.1 - L) * (1 - t.2.2)) :
+    z ∈ ops.map (·.1) ∧ ∀ y ∈ ops.map (·.1), z ≤ y :=
+  Gadget.min_selector_sound (L := L) (z := z) ops hsel hsum hle hge
+
+theorem max_selector_complete {U z : K} (ps : List (K × K))
+    (hb : ∀ p ∈ ps, p.2 ≤ p.1 ∧ p.1 ≤ U) (hmem : z ∈ ps.map (·.1)) (hub : ∀ y ∈ ps.map (·.1), y ≤ z) :
+    ∃ ss : List K, ss.length = ps.length ∧ (∀ s ∈ ss, B01 s) ∧ ss.sum = 1 ∧
+      ∀ t ∈ ps.zip ss, z ≥ t.1.1 ∧ z ≤ t.1.1 + (U - t.1.2) * (1 - t.2) :=
+  Gadget.max_selector_complete (U := U) (z := z) ps hb hmem hub
+
+theorem min_selector_complete {L z : K} (ps : List (K × K))
+    (hb : ∀ p ∈ ps, p.1 ≤ p.2 ∧ L ≤ p.1) (hmem : z ∈ ps.map (·.1)) (hlb : ∀ y ∈ ps.map (·.1), z ≤ y) :
+    ∃ ss : List K, ss.length = ps.length ∧ (∀ s ∈ ss, B01 s) ∧ ss.sum = 1 ∧
+      ∀ t ∈ ps.zip ss, z ≤ t.1.1 ∧ z ≥ t.1.1 - (t.1.2 - L) * (1 - t.2) :=
+  Gadget.min_selector_complete (L := L) (z := z) ps hb hmem hlb
+
+/-! ### sums of 0/1 values -/
+
+theorem sum01_bounds : ∀ (as : List K), (∀ a ∈ as, B01 a) → 0 ≤ as.sum ∧ as.sum ≤ (as.length : K) :=
+  Gadget.sum01_bounds
+
+theorem sum01_eq_zero_iff : ∀ (as : List K), (∀ a ∈ as, B01 a) → (as.sum = 0 ↔ ∀ a ∈ as, a = 0) :=
+  Gadget.sum01_eq_zero_iff
+
+theorem sum01_ge_one_iff : ∀ (as : List K), (∀ a ∈ as, B01 a) → (1 ≤ as.sum ↔ ∃ a ∈ as, a = 1) :=
+  Gadget.sum01_ge_one_iff
+
+theorem sum01_le_pred_iff : ∀ (as : List K), (∀ a ∈ as, B01 a) →
+    (as.sum ≤ (as.length : K) - 1 ↔ ∃ a ∈ as, a = 0) :=
+  Gadget.sum01_le_pred_iff
+
+theorem sum01_eq_length_iff (as : List K) (h : ∀ a ∈ as, B01 a) :
+    (as.sum = (as.length : K) ↔ ∀ a ∈ as, a = 1) :=
+  Gadget.sum01_eq_length_iff as h
+
+/-! ### reified logic values: rows over 0/1 operands force the auxiliary to the truth value -/
+
+theorem and_reify_iff {z : K} (as : List K) (hz : B01 z) (ha : ∀ a ∈ as, B01 a) :
+    ((∀ a ∈ as, z ≤ a) ∧ z ≥ as.sum - ((as.length : K) - 1)) ↔ (z = 1 ↔ ∀ a ∈ as, a = 1) :=
+  Gadget.and_reify_iff (z := z) as hz ha
+
+theorem or_reify_iff {z : K} (as : List K) (hz : B01 z) (ha : ∀ a ∈ as, B01 a) :
+    ((∀ a ∈ as, z ≥ a) ∧ z ≤ as.sum) ↔ (z = 1 ↔ ∃ a ∈ as, a = 1) :=
+  Gadget.or_reify_iff (z := z) as hz ha
+
+theorem implies_reify_iff {z a b : K} (hz : B01 z) (ha : B01 a) (hb : B01 b) :
+    (z ≥ 1 - a ∧ z ≥ b ∧ z ≤ 1 - a + b) ↔ (z = 1 ↔ (a = 1 → b = 1)) :=
+  Gadget.implies_reify_iff (z := z) (a := a) (b := b) hz ha hb
+
+theorem iff_reify_iff {z a b : K} (hz : B01 z) (ha : B01 a) (hb : B01 b) :
+    (z ≥ a + b - 1 ∧ z ≥ 1 - a - b ∧ z ≤ 1 - a + b ∧ z ≤ 1 + a - b) ↔ (z = 1 ↔ (a = 1 ↔ b = 1)) :=
+  Gadget.iff_reify_iff (z := z) (a := a) (b := b) hz ha hb
+
+theorem xor_reify_iff {z a b : K} (hz : B01 z) (ha : B01 a) (hb : B01 b) :
+    (z ≤ a + b ∧ z ≥ a - b ∧ z ≥ b - a ∧ z ≤ 2 - a - b) ↔ (z = 1 ↔ ¬ (a = 1 ↔ b = 1)) :=
+  Gadget.xor_reify_iff (z := z) (a := a) (b := b) hz ha hb
+
+theorem not_affine {e : K} (he : B01 e) : B01 (1 - e) ∧ ((1 - e = 1) ↔ ¬ (e = 1)) :=
+  Gadget.not_affine (e := e) he
+
+/-! ### affine assertion forms (`try_lower_affine_logic_assertion`), both polarities -/
+
+theorem assert_and_true (as : List K) (ha : ∀ a ∈ as, B01 a) :
+    as.sum = (as.length : K) ↔ ∀ a ∈ as, a = 1 :=
+  Gadget.assert_and_true as ha
+
+theorem assert_and_false (as : List K) (ha : ∀ a ∈ as, B01 a) :
+    as.sum ≤ (as.length : K) - 1 ↔ ¬ ∀ a ∈ as, a = 1 :=
+  Gadget.assert_and_false as ha
+
+theorem assert_or_true (as : List K) (ha : ∀ a ∈ as, B01 a) :
+    as.sum ≥ 1 ↔ ∃ a ∈ as, a = 1 :=
+  Gadget.assert_or_true as ha
+
+theorem assert_or_false (as : List K) (ha : ∀ a ∈ as, B01 a) :
+    as.sum = 0 ↔ ¬ ∃ a ∈ as, a = 1 :=
+  Gadget.assert_or_false as ha
+
+theorem assert_implies_true {a b : K} (ha : B01 a) (hb : B01 b) : a ≤ b ↔ (a = 1 → b = 1) :=
+  Gadget.assert_implies_true (a := a) (b := b) ha hb
+
+theorem assert_implies_false {a b : K} (ha : B01 a) (hb : B01 b) : a - b = 1 ↔ ¬ (a = 1 → b = 1) :=
+  Gadget.assert_implies_false (a := a) (b := b) ha hb
+
+theorem assert_iff_true {a b : K} (ha : B01 a) (hb : B01 b) : a = b ↔ (a = 1 ↔ b = 1) :=
+  Gadget.assert_iff_true (a := a) (b := b) ha hb
+
+theorem assert_iff_false {a b : K} (ha : B01 a) (hb : B01 b) : a + b = 1 ↔ ¬ (a = 1 ↔ b = 1) :=
+  Gadget.assert_iff_false (a := a) (b := b) ha hb
+
+theorem assert_xor_true {a b : K} (ha : B01 a) (hb : B01 b) : a + b = 1 ↔ ¬ (a = 1 ↔ b = 1) :=
+  Gadget.assert_xor_true (a := a) (b := b) ha hb
+
+theorem assert_xor_false {a b : K} (ha : B01 a) (hb : B01 b) : a = b ↔ ¬ ¬ (a = 1 ↔ b = 1) :=
+  Gadget.assert_xor_false (a := a) (b := b) ha hb
+
+/-! ### directional witnesses: a 0/1 witness `w` with `w = 1 ⇒ formula has the requested value`;
+`w = 0` is always allowed, and `w = 1` is allowed exactly when the children allow it. -/
+
+theorem witness_all_iff {w : K} (cs : List K) (hw : B01 w) (hc : ∀ c ∈ cs, B01 c) :
+    (∀ c ∈ cs, w ≤ c) ↔ (w = 1 → ∀ c ∈ cs, c = 1) :=
+  Gadget.witness_all_iff (w := w) cs hw hc
+
+theorem witness_any_iff {w : K} (cs : List K) (hw : B01 w) (hc : ∀ c ∈ cs, B01 c) :
+    w ≤ cs.sum ↔ (w = 1 → ∃ c ∈ cs, c = 1) :=
+  Gadget.witness_any_iff (w := w) cs hw hc
+
+theorem witness_iff_true {w a b : K} (hw : B01 w) (ha : B01 a) (hb : B01 b) :
+    (w ≤ 1 - a + b ∧ w ≤ 1 + a - b) ↔ (w = 1 → (a = 1 ↔ b = 1)) :=
+  Gadget.witness_iff_true (w := w) (a := a) (b := b) hw ha hb
+
+theorem witness_iff_false {w a b : K} (hw : B01 w) (ha : B01 a) (hb : B01 b) :
+    (w ≤ a + b ∧ w ≤ 2 - a - b) ↔ (w = 1 → ¬ (a = 1 ↔ b = 1)) :=
+  Gadget.witness_iff_false (w := w) (a := a) (b := b) hw ha hb
+
+theorem witness_assert (ws : List K) (hw : ∀ w ∈ ws, B01 w) : ws.sum ≥ 1 ↔ ∃ w ∈ ws, w = 1 :=
+  Gadget.witness_assert ws hw
+
+/-! ### comparison of a 0/1 value against a constant (`try_normalize_logic_constraint`):
+the four-way table on `(R 0, R 1)` where `R x := x ⋈ c`. -/
+
+theorem normalize_true {R : K → Prop} {x : K} (hx : B01 x) (h0 : ¬ R 0) (h1 : R 1) : R x ↔ x = 1 :=
+  Gadget.normalize_true (R := R) (x := x) hx h0 h1
+
+theorem normalize_false {R : K → Prop} {x : K} (hx : B01 x) (h0 : R 0) (h1 : ¬ R 1) : R x ↔ x = 0 :=
+  Gadget.normalize_false (R := R) (x := x) hx h0 h1
+
+theorem normalize_tautology {R : K → Prop} {x : K} (hx : B01 x) (h0 : R 0) (h1 : R 1) : R x :=
+  Gadget.normalize_tautology (R := R) (x := x) hx h0 h1
+
+theorem normalize_contradiction {R : K → Prop} {x : K} (hx : B01 x) (h0 : ¬ R 0) (h1 : ¬ R 1) : ¬ R x :=
+  Gadget.normalize_contradiction (R := R) (x := x) hx h0 h1
+
+/-! ### dominated-operand pruning of `linearize_extreme`
+
+Bounds live in any linear order `B` into which the field embeds (`B = K` for finite bounds,
+`B = WithBot (WithTop K)` or the like for `±∞`).  Operand `i` is *dominated* (dropped) when some other
+operand `j` has `L j ≥ U i`, unless both are the same fixed value, in which case only the one with
+the smaller index survives. -/
+
+section prune
+
+variable {B : Type} [LinearOrder B]
+
+theorem prune_max_exists (ι : K → B) (hι : ∀ a b, ι a ≤ ι b ↔ a ≤ b) (n : ℕ) (L U : ℕ → B) (v : ℕ → K)
+    (henc : ∀ i, i < n → L i ≤ ι (v i) ∧ ι (v i) ≤ U i) :
+    ∀ i, i < n → ∃ j, j < n ∧ ¬ DomMax L U n j ∧ v i ≤ v j :=
+  Gadget.prune_max_exists ι hι n L U v henc
+
+theorem prune_min_exists (ι : K → B) (hι : ∀ a b, ι a ≤ ι b ↔ a ≤ b) (n : ℕ) (L U : ℕ → B) (v : ℕ → K)
+    (henc : ∀ i, i < n → L i ≤ ι (v i) ∧ ι (v i) ≤ U i) :
+    ∀ i, i < n → ∃ j, j < n ∧ ¬ DomMin L U n j ∧ v j ≤ v i :=
+  Gadget.prune_min_exists ι hι n L U v henc
+
+theorem prune_max_iff (ι : K → B) (hι : ∀ a b, ι a ≤ ι b ↔ a ≤ b) (n : ℕ) (L U : ℕ → B) (v : ℕ → K)
+    (henc : ∀ i, i < n → L i ≤ ι (v i) ∧ ι (v i) ≤ U i) (z : K) :
+    ((∃ i, i < n ∧ v i = z) ∧ ∀ i, i < n → v i ≤ z) ↔
+    ((∃ j, j < n ∧ ¬ DomMax L U n j ∧ v j = z) ∧ ∀ j, j < n → ¬ DomMax L U n j → v j ≤ z) :=
+  Gadget.prune_max_iff ι hι n L U v henc z
+
+theorem prune_min_iff (ι : K → B) (hι : ∀ a b, ι a ≤ ι b ↔ a ≤ b) (n : ℕ) (L U : ℕ → B) (v : ℕ → K)
+    (henc : ∀ i, i < n → L i ≤ ι (v i) ∧ ι (v i) ≤ U i) (z : K) :
+    ((∃ i, i < n ∧ v i = z) ∧ ∀ i, i < n → z ≤ v i) ↔
+    ((∃ j, j < n ∧ ¬ DomMin L U n j ∧ v j = z) ∧ ∀ j, j < n → ¬ DomMin L U n j → z ≤ v j) :=
+  Gadget.prune_min_iff ι hι n L U v henc z
+
+end prune
+
+
+/-! non-vacuity of the Stage-A hypotheses (one instance per family) -/
+
+example : ∃ l u e : K, l ≤ e ∧ e ≤ u ∧ l < 0 ∧ 0 < u := ⟨-1, 1, 0, by norm_num, by norm_num, by norm_num, by norm_num⟩
+example : ∃ (U z : K) (ps : List (K × K)), (∀ p ∈ ps, p.2 ≤ p.1 ∧ p.1 ≤ U) ∧ z ∈ ps.map (·.1) ∧
+    ∀ y ∈ ps.map (·.1), y ≤ z :=
+  ⟨2, 1, [(1, 0), (0, 0)], by simp, by simp, by simp⟩
+example : ∃ (z : K) (as : List K), B01 z ∧ (∀ a ∈ as, B01 a) ∧ (z = 1 ↔ ∀ a ∈ as, a = 1) :=
+  ⟨1, [1, 1], Or.inr rfl, by simp [B01], by simp⟩
+example : ∃ (n : ℕ) (L U : ℕ → K) (v : ℕ → K), 0 < n ∧ ∀ i, i < n → L i ≤ id (v i) ∧ id (v i) ≤ U i :=
+  ⟨1, fun _ => 0, fun _ => 1, fun _ => 0, by norm_num, fun _ _ => by simp⟩
+
+/-! ## Stage B — the affine fragment, and C01 end to end on purely affine models
+
+Vocabulary (definitions in `Rooc/Proofs/Lin*.lean`, namespace `Rooc.LinP`):
+* `ctxVal ρ c = Σ coeff·ρ(var) + rhs` for a linearization context `c : Ctx (Ext K)`; `CtxOK c` = all
+  coefficients and the constant are finite and the variable names are distinct (the `IndexMap` invariant);
+  `termsVal ρ ts` the same sum for a bare term list.
+* `arithOnly e` = `e` is built from literals, variables, `+ - * /` and unary minus; `varsOf e` its variables.
+* `AffineModel m d` = objective and every constraint are `arithOnly` comparisons (no bare assertion) over
+  variables declared in `d` with a usage mark; `DefinedC c` = both sides of `c` evaluate at every assignment;
+  `DomRel m d` = `d` has distinct names, only shrinks `m.domain`, and contains every source-feasible point.
+* The two C10 facts about `Exp.flattenF` / `Exp.simplify` that `emit_constraint` relies on (`FlattenSound K`,
+  `SimplifySoundArith K`) are taken from C10's lemmas in `Rooc/Proofs/LinC10.lean`. -/
+
+section StageB
+variable [FloorRing K]
+
+theorem ctx_addVar {c : Ctx (Ext K)} (h : CtxOK c) (ρ : String → K) (name : String) (m : K) :
+    CtxOK (c.addVar name (Ext.fin m)) ∧ ctxVal ρ (c.addVar name (Ext.fin m)) = ctxVal ρ c + m * ρ name :=
+  ⟨addVar_ok h name m, addVar_val ρ h name m⟩
+
+theorem ctx_mergeAdd {c o : Ctx (Ext K)} (hc : CtxOK c) (ho : CtxOK o) (ρ : String → K) :
+    CtxOK (c.mergeAdd o) ∧ ctxVal ρ (c.mergeAdd o) = ctxVal ρ c + ctxVal ρ o :=
+  ⟨(mergeAdd_spec ρ hc ho).1, (mergeAdd_spec ρ hc ho).2.1⟩
+
+theorem ctx_mergeSub {c o : Ctx (Ext K)} (hc : CtxOK c) (ho : CtxOK o) (ρ : String → K) :
+    CtxOK (c.mergeSub o) ∧ ctxVal ρ (c.mergeSub o) = ctxVal ρ c - ctxVal ρ o :=
+  ⟨(mergeSub_spec ρ hc ho).1, (mergeSub_spec ρ hc ho).2.1⟩
+
+theorem ctx_mulBy {c : Ctx (Ext K)} (hc : CtxOK c) (ρ : String → K) (m : K) :
+    CtxOK (c.mulBy (Ext.fin m)) ∧ ctxVal ρ (c.mulBy (Ext.fin m)) = ctxVal ρ c * m :=
+  ⟨(mulBy_spec ρ hc m).1, (mulBy_spec ρ hc m).2.1⟩
+
+theorem ctx_divBy {c : Ctx (Ext K)} (hc : CtxOK c) (ρ : String → K) (d : K) (hd : d ≠ 0) :
+    CtxOK (c.divBy (Ext.fin d)) ∧ ctxVal ρ (c.divBy (Ext.fin d)) = ctxVal ρ c / d :=
+  ⟨(divBy_spec ρ hc d hd).1, (divBy_spec ρ hc d hd).2.1⟩
+
+/-- `context_to_exp` round trip. -/
+theorem ctxToExp_roundtrip (ρ : String → K) {c : Ctx (Ext K)} (hc : CtxOK c) :
+    eval ρ (ctxToExp c) = some (ctxVal ρ c) :=
+  ctxToExp_eval ρ hc
+
+/-- `extract_coeffs` followed by the dot product of the linear model is the value of the term list,
+as soon as every variable of the list is in `vars`. -/
+theorem extractCoeffs_dotK (ρ : String → K) (vars : List String) (ts : List (String × Ext K))
+    (hfin : TermsFin ts) (hnd : (ts.map (·.1)).Nodup) (hmem : ∀ p ∈ ts, p.1 ∈ vars) :
+    dotK ρ (extractCoeffs ts vars) vars = some (termsVal ρ ts) := by
+  obtain ⟨h1, h2, h3⟩ := extractCoeffs_spec ρ vars ts hfin hnd hmem
+  rw [dotK_eq ρ _ _ h2 (le_of_eq h1), h3]
+
+/-- The affine fragment of `Exp::linearize`: no auxiliary, no constraint, no state change at all; the
+context mentions only variables of `e`; and it evaluates to the value of `e` wherever that is defined. -/
+theorem linExp_affine (e : Exp (Ext K)) (he : arithOnly e = true) (req : Req) (s s' : St (Ext K))
+    (c : Ctx (Ext K)) (h : linExp e req s = .ok (c, s')) :
+    s' = s ∧ (∀ x ∈ ctxNames c, x ∈ varsOf e) ∧
+      ∀ (ρ : String → K) (v : K), eval ρ e = some v → CtxOK c ∧ ctxVal ρ c = v :=
+  let R := lin_arith e he req s c s' h
+  ⟨R.state, R.names, R.value⟩
+
+/-- `emit_constraint` on an affine comparison: exactly one row is appended, nothing else changes, and the
+row holds iff the comparison does. -/
+theorem emitConstraint_affine {S : String → Prop}
+    {lhs rhs : Exp (Ext K)} {cmp : Cmp} {name : String} {s : St (Ext K)} {r : Unit × St (Ext K)}
+    (hl : AG S lhs) (hr : AG S rhs) (h : emitConstraint lhs cmp rhs name s = .ok r) :
+    ∃ row : MidRow (Ext K), r = ((), { s with rows := s.rows ++ [row] }) ∧ row.name = name ∧ row.cmp = cmp ∧
+      (∀ x ∈ row.lhs.map (·.1), S x) ∧
+      ∀ (ρ : String → K) (a b : K), eval ρ lhs = some a → eval ρ rhs = some b →
+        RowOK row ∧ (rowTrue ρ row ↔ cmpK cmp a b = true) :=
+  emit_arith flattenSound simplifySoundArith hl hr h
+
+/-- **C01 on purely affine models** (through `flatten`, `simplify`, comparison normalisation of Boolean
+variables against constants, the work-list loop, name de-duplication, the used-variable filter and
+coefficient extraction): the linear model has no auxiliary variable and exactly the source's feasible set. -/
+theorem c01_affine {m : Model (Ext K)} {b : BoundsMap (Ext K)} {d : List (DomVar (Ext K))} {lm : LinModel (Ext K)}
+    (h : linearizeWith m b d = .ok lm)
+    (haff : AffineModel m d) (hdef : ∀ c ∈ m.constraints, DefinedC c) (hdom : DomRel m d) :
+    ∀ ρ : String → K, srcFeasible m ρ = true ↔ linFeasible lm ρ = true :=
+  fun ρ => affine_feasible_iff flattenSound simplifySoundArith haff hdef hdom h ρ
+
+/-- non-vacuity of `c01_affine`: the model `min x s.t. c: x ≤ y` (x, y free reals) compiles (for every ordered
+field at once) and satisfies every hypothesis. -/
+example : ∃ (m : Model (Ext K)) (b : BoundsMap (Ext K)) (d : List (DomVar (Ext K))) (lm : LinModel (Ext K)),
+    linearizeWith m b d = .ok lm ∧ AffineModel m d ∧ (∀ c ∈ m.constraints, DefinedC c) ∧ DomRel m d := by
+  obtain ⟨lm, h⟩ := exAffine_ok (K := K)
+  exact ⟨exAffine, [], exAffine.domain, lm, h, exAffine_hyps.1, exAffine_hyps.2.1, exAffine_hyps.2.2⟩
+
+/-- the same in the shape of the full target (the extension is the assignment itself). -/
+theorem c01_affine' {m : Model (Ext K)} {b : BoundsMap (Ext K)} {d : List (DomVar (Ext K))} {lm : LinModel (Ext K)}
+    (h : linearizeWith m b d = .ok lm)
+    (haff : AffineModel m d) (hdef : ∀ c ∈ m.constraints, DefinedC c) (hdom : DomRel m d) (ρ : String → K) :
+    srcFeasible m ρ = true ↔ ∃ ρ' : String → K, (∀ v, inScope d v → ρ' v = ρ v) ∧ linFeasible lm ρ' = true := by
+  constructor
+  · intro hs; exact ⟨ρ, fun _ _ => rfl, (c01_affine h haff hdef hdom ρ).mp hs⟩
+  · rintro ⟨ρ', hag, hl⟩
+    have hs' := (c01_affine h haff hdef hdom ρ').mpr hl
+    -- source feasibility only reads declared, used variables
+    refine (srcFeasible_congr (d := d) ?_ hdom.names hag).mp hs'
+    intro c hc x hx
+    rcases hx with hx | hx
+    · exact (haff.cons c hc).lhs.2 x hx
+    · exact (haff.cons c hc).rhs.2 x hx
+
+end StageB
+
+/-! ## Stages C and E — `abs`, `min`, `max` with auxiliaries; the work-list loop; C01 on piecewise-linear models
+
+Vocabulary (definitions in `Rooc/Proofs/LinSpec.lean`, `LinFrag.lean`, `LinLoop.lean`, `LinFinal.lean`):
+* `frag true e` = `e` is built from literals, variables, `+ - * /`, unary minus, `abs`, `min{…}`, `max{…}`
+  (any nesting; `frag false` excludes `min`/`max`).
+* `rel req a v` = what the requirement promises about the context value `a` against the true value `v`:
+  `lower : v ≤ a`, `higher : a ≤ v`, `exact : a = v`.
+* `Spec Src e req s c s'` (for `linExp e req s = .ok (c, s')`): rows untouched; domain and queue only grow; the
+  state invariant `StInv` (distinct names, the bounds map is implied by the domains, every queue entry scoped,
+  every NEW queue entry an everywhere-defined affine comparison) is preserved; `c` is well-formed over declared
+  variables; **sound**: every assignment satisfying the new domains and the new queue has
+  `rel req (ctxVal ρ c) (eval ρ e)`; **complete**: every solution of the old state extends — changing only fresh
+  auxiliaries — to a solution of the new state with `ctxVal ρ' c = eval ρ e`.
+* `FragModel true m d` = objective and both sides of every constraint are `frag true`, over variables
+  declared in `d` with a usage mark, comparisons only (no bare logic assertion), defined at every assignment;
+  `DomRel m d` as in Stage B; `BoxEnforced b d` = every assignment satisfying the domains `d` lies in the box
+  `b` — the enclosure the rewrites rely on is enforced by the output's domains.  Its Boolean case is
+  `BooleanBoundsUntouched` (the range of a Boolean variable in `b` contains 0 and 1); for the other variable
+  kinds it is what `apply_to_domain` establishes.
+The bounds oracle (`Lin.boundsOf` encloses `Sem.eval` on the box) is NOT a hypothesis: it is derived from C07's
+`boundsOf_mem` in `Rooc/Proofs/LinOracle.lean` (`Lin.boundsOf` and `Analyzer.boundsOf` are the same function). -/
+
+section StageCE
+variable [FloorRing K]
+
+/-- **The requirement-indexed specification of `Exp::linearize`** on the piecewise-linear fragment:
+requirement flips through `-`, negative scales and divisions; sign-known `abs` shortcuts; one-sided `abs` rows;
+the exact big-M pair with selector; dominated-operand pruning; single retained operand; one-sided `min`/`max`
+rows; selector rows with `Σ sel = 1`. -/
+theorem linExp_spec {Src : Constraint (Ext K) → Prop} (e : Exp (Ext K)) (he : frag true e = true)
+    (req : Req) (s : St (Ext K)) (c : Ctx (Ext K)) (s' : St (Ext K))
+    (hpre : Pre Src e s) (h : linExp e req s = .ok (c, s')) : Spec Src e req s c s' :=
+  lin_spec_pl e he req s c s' hpre h
+
+/-- the loop: it empties the queue, and — up to fresh auxiliaries — keeps exactly the solutions. -/
+theorem drain_sound_complete {d0 : List (DomVar (Ext K))} (n : Nat) (s : St (Ext K)) (r : Unit × St (Ext K))
+    (hinv : LoopInv true d0 s) (h : drain n s = .ok r) :
+    LoopInv true d0 r.2 ∧ r.2.queue = [] ∧
+    (∀ ρ : String → K, Sat ρ r.2 → Sat ρ s) ∧
+    (∀ ρ : String → K, Sat ρ s → ∃ ρ' : String → K, (∀ x, inScope s.domain x → ρ' x = ρ x) ∧ Sat ρ' r.2) := by
+  obtain ⟨h1, h2, h3⟩ := drain_spec (fun e he => lin_spec_pl e he) n s r hinv h
+  exact ⟨h1, h2, fun ρ hs => (h3.sound ρ hs).1, fun ρ hs => h3.complete ρ hs trivial⟩
+
+/-- **C01 on piecewise-linear models** (`abs`, `min`, `max`, arbitrary nesting, mixed-sign scales, the same
+sub-expression on both sides, constraint-derived bounds): an assignment of the declared variables is
+source-feasible iff it extends, by values for the compiler's auxiliaries only, to a point satisfying every row
+and every domain of the linear model.
+
+`_partial`: logic values / bare assertions (Stage D) are outside `FragModel`; `BoxEnforced b d` is the
+"enforced" side condition (see the header; `boxEnforced_of_entries`, `bool_entry_ok` reduce it to a per-entry
+check). -/
+theorem c01_partial {m : Model (Ext K)} {b : BoundsMap (Ext K)} {d : List (DomVar (Ext K))}
+    {lm : LinModel (Ext K)} (h : linearizeWith m b d = .ok lm)
+    (hm : FragModel true m d) (hdom : DomRel m d) (hbox : BoxEnforced b d) (ρ : String → K) :
+    srcFeasible m ρ = true ↔
+      ∃ ρ' : String → K, (∀ x, inScope d x → ρ' x = ρ x) ∧ linFeasible lm ρ' = true :=
+  pl_feasible_iff hm hdom hbox h ρ
+
+/-- non-vacuity of `c01_partial`'s hypotheses (`min x s.t. x ≤ y`; it compiles for every ordered field). -/
+example : ∃ (m : Model (Ext K)) (b : BoundsMap (Ext K)) (d : List (DomVar (Ext K))) (lm : LinModel (Ext K)),
+    linearizeWith m b d = .ok lm ∧ FragModel true m d ∧ DomRel m d ∧ BoxEnforced b d := by
+  obtain ⟨lm, h⟩ := exAffine_ok (K := K)
+  obtain ⟨haff, hdef, hdom⟩ := exAffine_hyps (K := K)
+  refine ⟨exAffine, [], exAffine.domain, lm, h, ⟨FG_of_AG haff.obj, ?_, ?_⟩, hdom, ?_⟩
+  · intro ρ; exact ⟨ρ "x", by simp [exAffine, eval]⟩
+  · intro c hc
+    exact ⟨(haff.cons c hc).notAssert, FG_of_AG (haff.cons c hc).lhs, FG_of_AG (haff.cons c hc).rhs, hdef c hc⟩
+  · intro ρ _ n bd hl; simp [lookupB] at hl
+
+/-- **Counterexample for the excluded region** (`BoxEnforced` dropped): `max x s.t. c: max{x, 1/2} ≤ 1/2`,
+`x` Boolean, with the bounds map `x ∈ [0, 1/2]` (a tightened Boolean range, as the bounds analysis produced
+before fix 5ec6390): the operand `x` is pruned, the model compiles to the single row `0 ≤ 0`, and `x = 1` is
+feasible for the linear model but not for the source.  Every other hypothesis of `c01_partial` holds. -/
+theorem c01_counterexample :
+    ∃ (m : Model (Ext K)) (b : BoundsMap (Ext K)) (d : List (DomVar (Ext K))) (lm : LinModel (Ext K))
+      (ρ : String → K),
+      linearizeWith m b d = .ok lm ∧ FragModel true m d ∧ DomRel m d ∧ ¬ BoxEnforced b d ∧
+      ¬ (srcFeasible m ρ = true ↔
+          ∃ ρ' : String → K, (∀ x, inScope d x → ρ' x = ρ x) ∧ linFeasible lm ρ' = true) :=
+  boxEnforced_needed (k := (1 / 2 : K)) (by norm_num) (by norm_num)
+
+/-- `BoxEnforced` from a per-entry check. -/
+theorem boxEnforced_check {b : BoundsMap (Ext K)} {d : List (DomVar (Ext K))}
+    (h : ∀ n bd, lookupB b n = some bd → ∃ dv ∈ d, dv.name = n ∧ dv.usage > 0 ∧
+      ∀ x : K, inDomain x dv.ty = true → Encl bd x) : BoxEnforced b d :=
+  boxEnforced_of_entries h
+
+end StageCE
+
 end Rooc.Props.C01
